@@ -272,3 +272,309 @@ pub proof fn lemma_layer_unique(t: IndexedCoproduct<FiniteFunction>, s: IndexedC
 }
 
 ''')
+
+raw(r'''
+// ---------------------------------------------------------------------------------------------
+// pasting of coequalizers (towards associativity of composition)
+// ---------------------------------------------------------------------------------------------
+/// the order in which the pairs are listed does not matter
+pub proof fn lemma_coeq_pairs_swap(q: Seq<usize>, k: int, sa: Seq<usize>, ta: Seq<usize>, sb: Seq<usize>, tb: Seq<usize>, n: int)
+    requires is_coeq(q, k, sa + sb, ta + tb, n), sa.len() == ta.len(), sb.len() == tb.len()
+    ensures is_coeq(q, k, sb + sa, tb + ta, n)
+{
+    let s1 = sa + sb; let t1 = ta + tb; let s2 = sb + sa; let t2 = tb + ta;
+    assert forall|j: int| 0 <= j < s2.len() implies q[#[trigger] s2[j] as int] == q[t2[j] as int] by {
+        if j < sb.len() { assert(s1[sa.len() + j] == sb[j] && t1[sa.len() + j] == tb[j]); assert(q[s1[sa.len() + j] as int] == q[t1[sa.len() + j] as int]); }
+        else { let j2 = j - sb.len(); assert(s1[j2] == sa[j2] && t1[j2] == ta[j2]); assert(q[s1[j2] as int] == q[t1[j2] as int]); }
+    }
+    assert forall|r: spec_fn(int, int) -> bool| #[trigger] compat(r, s2, t2, n) implies (forall|a: int, b: int| 0 <= a < n && 0 <= b < n && q[a] == q[b] ==> #[trigger] r(a, b)) by {
+        assert(compat(r, s1, t1, n)) by {
+            assert forall|j: int| 0 <= j < s1.len() implies #[trigger] r(s1[j] as int, t1[j] as int) by {
+                if j < sa.len() { assert(s2[sb.len() + j] == sa[j] && t2[sb.len() + j] == ta[j]); assert(r(s2[sb.len() + j] as int, t2[sb.len() + j] as int)); }
+                else { let j2 = j - sa.len(); assert(s2[j2] == sb[j2] && t2[j2] == tb[j2]); assert(r(s2[j2] as int, t2[j2] as int)); }
+            }
+        }
+    }
+}
+
+/// two coequalizers in a row are one coequalizer: if q1 is a coequalizer of (s1, t1) on 0..n and q2 one of (s2, t2) on its
+/// classes, and (s2l, t2l) are representatives of the second pairs, then q2 after q1 is a coequalizer of all pairs
+pub proof fn lemma_coeq_paste(q1: Seq<usize>, k1: int, s1: Seq<usize>, t1: Seq<usize>, n: int,
+                              q2: Seq<usize>, k2: int, s2: Seq<usize>, t2: Seq<usize>, s2l: Seq<usize>, t2l: Seq<usize>)
+    requires is_coeq(q1, k1, s1, t1, n), is_coeq(q2, k2, s2, t2, k1), s1.len() == t1.len(), s2.len() == t2.len(), s2l.len() == s2.len(), t2l.len() == s2.len(),
+        forall|j: int| 0 <= j < s1.len() ==> 0 <= #[trigger] s1[j] < n && 0 <= t1[j] < n,
+        forall|j: int| 0 <= j < s2.len() ==> 0 <= #[trigger] s2l[j] < n && 0 <= t2l[j] < n && q1[s2l[j] as int] == s2[j] && q1[t2l[j] as int] == t2[j],
+    ensures is_coeq(Seq::new(n as nat, |a: int| q2[q1[a] as int]), k2, s1 + s2l, t1 + t2l, n)
+{
+    let qq = Seq::new(n as nat, |a: int| q2[q1[a] as int]);
+    let s = s1 + s2l; let t = t1 + t2l;
+    assert forall|i: int| 0 <= i < n implies (#[trigger] qq[i]) < k2 by { assert(q1[i] < k1); assert(q2[q1[i] as int] < k2); }
+    assert forall|c: int| 0 <= c < k2 implies #[trigger] hit(qq, c, n) by {
+        assert(hit(q2, c, k1));
+        let b = choose|b: int| 0 <= b < k1 && #[trigger] q2[b] == c;
+        assert(hit(q1, b, n));
+        let a = choose|a: int| 0 <= a < n && #[trigger] q1[a] == b;
+        assert(qq[a] == c);
+    }
+    assert forall|j: int| 0 <= j < s.len() implies qq[#[trigger] s[j] as int] == qq[t[j] as int] by {
+        if j < s1.len() { assert(s[j] == s1[j] && t[j] == t1[j]); assert(q1[s1[j] as int] == q1[t1[j] as int]); }
+        else { let j2 = j - s1.len(); assert(s[j] == s2l[j2] && t[j] == t2l[j2]); assert(q2[s2[j2] as int] == q2[t2[j2] as int]); }
+    }
+    assert forall|r: spec_fn(int, int) -> bool| #[trigger] compat(r, s, t, n) implies (forall|a: int, b: int| 0 <= a < n && 0 <= b < n && qq[a] == qq[b] ==> #[trigger] r(a, b)) by {
+        // (*) r contains the kernel of q1
+        assert(compat(r, s1, t1, n)) by {
+            assert forall|j: int| 0 <= j < s1.len() implies #[trigger] r(s1[j] as int, t1[j] as int) by { assert(s[j] == s1[j] && t[j] == t1[j]); assert(r(s[j] as int, t[j] as int)); }
+        }
+        assert forall|a: int, b: int| 0 <= a < n && 0 <= b < n && q1[a] == q1[b] implies #[trigger] r(a, b) by {}
+        // r descends to the classes of q1
+        let r1 = |c: int, d: int| r(rep(q1, n, c), rep(q1, n, d));
+        assert forall|c: int| 0 <= c < k1 implies 0 <= #[trigger] rep(q1, n, c) < n && q1[rep(q1, n, c)] == c by { assert(hit(q1, c, n)); }
+        assert(compat(r1, s2, t2, k1)) by {
+            assert forall|c: int| 0 <= c < k1 implies #[trigger] r1(c, c) by { assert(r(rep(q1, n, c), rep(q1, n, c))); }
+            assert forall|c: int, d: int| 0 <= c < k1 && 0 <= d < k1 && #[trigger] r1(c, d) implies r1(d, c) by { assert(r(rep(q1, n, c), rep(q1, n, d))); }
+            assert forall|c: int, d: int, e: int| 0 <= c < k1 && 0 <= d < k1 && 0 <= e < k1 && #[trigger] r1(c, d) && #[trigger] r1(d, e) implies r1(c, e) by {
+                assert(r(rep(q1, n, c), rep(q1, n, d)) && r(rep(q1, n, d), rep(q1, n, e)));
+            }
+            assert forall|j: int| 0 <= j < s2.len() implies #[trigger] r1(s2[j] as int, t2[j] as int) by {
+                let a = s2l[j] as int; let b = t2l[j] as int;
+                assert(s[s1.len() + j] == s2l[j] && t[s1.len() + j] == t2l[j]);
+                assert(r(s[s1.len() + j] as int, t[s1.len() + j] as int));
+                assert(s2[j] < k1 && t2[j] < k1) by { assert(q1[a] < k1 && q1[b] < k1); }
+                let ra = rep(q1, n, s2[j] as int); let rb = rep(q1, n, t2[j] as int);
+                assert(r(ra, a)); assert(r(a, b)); assert(r(b, rb));
+                assert(r(ra, b));
+            }
+        }
+        assert forall|a: int, b: int| 0 <= a < n && 0 <= b < n && qq[a] == qq[b] implies #[trigger] r(a, b) by {
+            let c = q1[a] as int; let d = q1[b] as int;
+            assert(c < k1 && d < k1);
+            assert(q2[c] == q2[d]);
+            assert(r1(c, d));
+            assert(r(a, rep(q1, n, c))); assert(r(rep(q1, n, d), b));
+            assert(r(rep(q1, n, c), rep(q1, n, d)));
+            assert(r(a, rep(q1, n, d)));
+        }
+    }
+}
+''')
+
+raw(r'''
+/// q followed by the identity on e extra nodes
+pub open spec fn ext_right(q: Seq<usize>, k: int, e: int) -> Seq<usize> {
+    Seq::new((q.len() + e) as nat, |a: int| if a < q.len() { q[a] } else { (k + (a - q.len())) as usize })
+}
+/// the identity on e extra nodes followed by q (shifted)
+pub open spec fn ext_left(q: Seq<usize>, e: int) -> Seq<usize> {
+    Seq::new((e + q.len()) as nat, |a: int| if a < e { a as usize } else { (e + q[a - e]) as usize })
+}
+pub open spec fn shifted(s: Seq<usize>, e: int) -> Seq<usize> { Seq::new(s.len(), |j: int| (e + s[j]) as usize) }
+
+pub proof fn lemma_coeq_ext_right(q: Seq<usize>, k: int, s: Seq<usize>, t: Seq<usize>, n: int, e: int)
+    requires is_coeq(q, k, s, t, n), s.len() == t.len(), 0 <= e, 0 <= k, k + e <= usize::MAX,
+        forall|j: int| 0 <= j < s.len() ==> 0 <= #[trigger] s[j] < n && 0 <= t[j] < n,
+    ensures is_coeq(ext_right(q, k, e), k + e, s, t, n + e)
+{
+    let qe = ext_right(q, k, e);
+    assert forall|c: int| 0 <= c < k + e implies #[trigger] hit(qe, c, n + e) by {
+        if c < k { assert(hit(q, c, n)); let a = choose|a: int| 0 <= a < n && #[trigger] q[a] == c; assert(qe[a] == c); }
+        else { assert(qe[n + (c - k)] == c); }
+    }
+    assert forall|j: int| 0 <= j < s.len() implies qe[#[trigger] s[j] as int] == qe[t[j] as int] by { assert(q[s[j] as int] == q[t[j] as int]); }
+    assert forall|r: spec_fn(int, int) -> bool| #[trigger] compat(r, s, t, n + e) implies (forall|a: int, b: int| 0 <= a < n + e && 0 <= b < n + e && qe[a] == qe[b] ==> #[trigger] r(a, b)) by {
+        assert(compat(r, s, t, n));
+        assert forall|a: int, b: int| 0 <= a < n + e && 0 <= b < n + e && qe[a] == qe[b] implies #[trigger] r(a, b) by {
+            if a < n && b < n { assert(q[a] == q[b]); }
+            else if a >= n && b >= n { assert(a == b); }
+            else if a < n { assert(q[a] < k); }
+            else { assert(q[b] < k); }
+        }
+    }
+}
+
+pub proof fn lemma_coeq_ext_left(q: Seq<usize>, k: int, s: Seq<usize>, t: Seq<usize>, n: int, e: int)
+    requires is_coeq(q, k, s, t, n), s.len() == t.len(), 0 <= e, 0 <= k, e + k <= usize::MAX, e + n <= usize::MAX,
+        forall|j: int| 0 <= j < s.len() ==> 0 <= #[trigger] s[j] < n && 0 <= t[j] < n,
+    ensures is_coeq(ext_left(q, e), e + k, shifted(s, e), shifted(t, e), e + n)
+{
+    let qe = ext_left(q, e); let se = shifted(s, e); let te = shifted(t, e);
+    assert forall|i: int| 0 <= i < e + n implies (#[trigger] qe[i]) < e + k by { if i >= e { assert(q[i - e] < k); } }
+    assert forall|c: int| 0 <= c < e + k implies #[trigger] hit(qe, c, e + n) by {
+        if c < e { assert(qe[c] == c); }
+        else { assert(hit(q, c - e, n)); let a = choose|a: int| 0 <= a < n && #[trigger] q[a] == c - e; assert(qe[e + a] == c); }
+    }
+    assert forall|j: int| 0 <= j < se.len() implies qe[#[trigger] se[j] as int] == qe[te[j] as int] by { assert(q[s[j] as int] == q[t[j] as int]); }
+    assert forall|r: spec_fn(int, int) -> bool| #[trigger] compat(r, se, te, e + n) implies (forall|a: int, b: int| 0 <= a < e + n && 0 <= b < e + n && qe[a] == qe[b] ==> #[trigger] r(a, b)) by {
+        let r0 = |a: int, b: int| r(e + a, e + b);
+        assert(compat(r0, s, t, n)) by {
+            assert forall|a: int| 0 <= a < n implies #[trigger] r0(a, a) by { assert(r(e + a, e + a)); }
+            assert forall|a: int, b: int| 0 <= a < n && 0 <= b < n && #[trigger] r0(a, b) implies r0(b, a) by { assert(r(e + a, e + b)); }
+            assert forall|a: int, b: int, c: int| 0 <= a < n && 0 <= b < n && 0 <= c < n && #[trigger] r0(a, b) && #[trigger] r0(b, c) implies r0(a, c) by { assert(r(e + a, e + b) && r(e + b, e + c)); }
+            assert forall|j: int| 0 <= j < s.len() implies #[trigger] r0(s[j] as int, t[j] as int) by { assert(r(se[j] as int, te[j] as int)); }
+        }
+        assert forall|a: int, b: int| 0 <= a < e + n && 0 <= b < e + n && qe[a] == qe[b] implies #[trigger] r(a, b) by {
+            if a >= e && b >= e { assert(q[a - e] == q[b - e]); assert(r0(a - e, b - e)); }
+            else if a < e && b < e { assert(a == b); }
+            else if a < e { assert(q[b - e] < k); }
+            else { assert(q[a - e] < k); }
+        }
+    }
+}
+''')
+
+raw(r'''
+/// label of node a of the juxtaposition f + g + h
+pub open spec fn label3<O, A>(f: OpenHypergraph<O, A>, g: OpenHypergraph<O, A>, h: OpenHypergraph<O, A>, a: int) -> O {
+    if a < f.h.w@.len() { f.h.w@[a] } else if a < f.h.w@.len() + g.h.w@.len() { g.h.w@[a - f.h.w@.len()] } else { h.h.w@[a - f.h.w@.len() - g.h.w@.len()] }
+}
+
+/// Associativity of composition up to isomorphism: for ANY results r1 = f;g, r = r1;h, r2 = g;h, rp = f;r2 allowed by the
+/// contract of `compose`, r and rp are isomorphic (both are the quotient of f + g + h by the two families of boundary pairs)
+pub proof fn lemma_compose_assoc<O, A>(f: OpenHypergraph<O, A>, g: OpenHypergraph<O, A>, h: OpenHypergraph<O, A>,
+                                       r1: OpenHypergraph<O, A>, r: OpenHypergraph<O, A>, r2: OpenHypergraph<O, A>, rp: OpenHypergraph<O, A>) -> (phi: Seq<usize>)
+    requires f.wf(), g.wf(), h.wf(), is_pushout(f, g, r1), is_pushout(r1, h, r), is_pushout(g, h, r2), is_pushout(f, r2, rp),
+        f.t.table@.len() == g.s.table@.len(), g.t.table@.len() == h.s.table@.len(),
+        f.h.w@.len() + g.h.w@.len() + h.h.w@.len() <= usize::MAX,
+    ensures node_iso(r, rp, phi)
+{
+    let nf = f.h.w@.len() as int; let ng = g.h.w@.len() as int; let nh = h.h.w@.len() as int; let nn = nf + ng + nh;
+    let (q1, k1) = choose|q: Seq<usize>, k: int| is_coeq(q, k, glue_left(f), glue_right(f, g), nf + ng) && #[trigger] is_quotient_of_jux(f, g, r1, q, k);
+    let (q, k) = choose|q: Seq<usize>, k: int| is_coeq(q, k, glue_left(r1), glue_right(r1, h), (r1.h.w@.len() + nh) as int) && #[trigger] is_quotient_of_jux(r1, h, r, q, k);
+    let (q2, k2) = choose|q: Seq<usize>, k: int| is_coeq(q, k, glue_left(g), glue_right(g, h), ng + nh) && #[trigger] is_quotient_of_jux(g, h, r2, q, k);
+    let (qp, kp) = choose|q: Seq<usize>, k: int| is_coeq(q, k, glue_left(f), glue_right(f, r2), (nf + r2.h.w@.len()) as int) && #[trigger] is_quotient_of_jux(f, r2, rp, q, k);
+    assert(r1.h.w@.len() == k1 && r2.h.w@.len() == k2 && r.h.w@.len() == k && rp.h.w@.len() == kp);
+    if nf + ng == 0 && k1 > 0 { assert(hit(q1, 0, 0)); }
+    if ng + nh == 0 && k2 > 0 { assert(hit(q2, 0, 0)); }
+    assert(k1 <= nf + ng) by { if k1 > nf + ng { lemma_surjection_small(q1, k1, nf + ng); } }
+    assert(k2 <= ng + nh) by { if k2 > ng + nh { lemma_surjection_small(q2, k2, ng + nh); } }
+    // the two families of pairs on f + g + h
+    let s1 = glue_left(f); let t1 = glue_right(f, g);
+    let s2l = Seq::new(g.t.table@.len(), |j: int| (nf + g.t.table@[j]) as usize);
+    let t2l = Seq::new(h.s.table@.len(), |j: int| (nf + ng + h.s.table@[j]) as usize);
+    assert forall|j: int| 0 <= j < s1.len() implies 0 <= #[trigger] s1[j] < nf + ng && 0 <= t1[j] < nf + ng by { assert(f.t.table@[j] < f.t.target && g.s.table@[j] < g.s.target); }
+    assert forall|j: int| 0 <= j < s2l.len() implies 0 <= #[trigger] s2l[j] < nn && 0 <= t2l[j] < nn by { assert(g.t.table@[j] < g.t.target && h.s.table@[j] < h.s.target); }
+    // left bracketing: q after (q1 + id)
+    lemma_coeq_ext_right(q1, k1, s1, t1, nf + ng, nh);
+    let q1e = ext_right(q1, k1, nh);
+    let s2 = glue_left(r1); let t2 = glue_right(r1, h);
+    assert forall|j: int| 0 <= j < s2.len() implies q1e[s2l[j] as int] == s2[j] && q1e[t2l[j] as int] == t2[j] by {
+        assert(g.t.table@[j] < g.t.target && h.s.table@[j] < h.s.target);
+        assert(r1.t.table@[j] == q1[nf + g.t.table@[j]]);
+    }
+    lemma_coeq_paste(q1e, k1 + nh, s1, t1, nn, q, k, s2, t2, s2l, t2l);
+    let ql = Seq::new(nn as nat, |a: int| q[q1e[a] as int]);
+    // right bracketing: qp after (id + q2)
+    assert forall|j: int| 0 <= j < glue_left(g).len() implies 0 <= #[trigger] glue_left(g)[j] < ng + nh && 0 <= glue_right(g, h)[j] < ng + nh by {
+        assert(g.t.table@[j] < g.t.target && h.s.table@[j] < h.s.target);
+    }
+    lemma_coeq_ext_left(q2, k2, glue_left(g), glue_right(g, h), ng + nh, nf);
+    let q2e = ext_left(q2, nf);
+    assert(shifted(glue_left(g), nf) =~= s2l && shifted(glue_right(g, h), nf) =~= t2l);
+    let sb = glue_left(f); let tb = glue_right(f, r2);
+    assert forall|j: int| 0 <= j < sb.len() implies q2e[s1[j] as int] == sb[j] && q2e[t1[j] as int] == tb[j] by {
+        assert(f.t.table@[j] < f.t.target && g.s.table@[j] < g.s.target);
+        assert(r2.s.table@[j] == q2[g.s.table@[j] as int]);
+    }
+    lemma_coeq_paste(q2e, nf + k2, s2l, t2l, nn, qp, kp, sb, tb, s1, t1);
+    let qr = Seq::new(nn as nat, |a: int| qp[q2e[a] as int]);
+    lemma_coeq_pairs_swap(qr, kp, s2l, t2l, s1, t1, nn);
+    // both are coequalizers of the same pairs: the codomains are in bijection
+    let ss = s1 + s2l; let tt = t1 + t2l;
+    assert forall|j: int| 0 <= j < ss.len() implies 0 <= #[trigger] ss[j] < nn && 0 <= tt[j] < nn by {
+        if j < s1.len() { assert(ss[j] == s1[j] && tt[j] == t1[j]); } else { assert(ss[j] == s2l[j - s1.len()] && tt[j] == t2l[j - s1.len()]); }
+    }
+    lemma_coeq_unique(ql, k, qr, kp, ss, tt, nn);
+    if nn == 0 && k > 0 { assert(hit(ql, 0, 0)); }
+    if nn == 0 && kp > 0 { assert(hit(qr, 0, 0)); }
+    let phi = lemma_factor_iso(ql, k, ss, tt, nn, qr, kp);
+    // what ql and qr are on the three parts
+    assert forall|a: int| 0 <= a < nf + ng implies (#[trigger] ql[a]) == q[q1[a] as int] by {}
+    assert forall|a: int| 0 <= a < nh implies (#[trigger] ql[nf + ng + a]) == q[k1 + a] by {}
+    assert forall|a: int| 0 <= a < nf implies (#[trigger] qr[a]) == qp[a] by {}
+    assert forall|a: int| 0 <= a < ng + nh implies (#[trigger] qr[nf + a]) == qp[nf + q2[a]] by {}
+    assert forall|a: int| 0 <= a < nn implies r.h.w@[(#[trigger] ql[a]) as int] == label3(f, g, h, a) && rp.h.w@[qr[a] as int] == label3(f, g, h, a) by {
+        if a < nf + ng {
+            assert(q1[a] < k1);
+            assert(r.h.w@[q[q1[a] as int] as int] == jux_label(r1, h, q1[a] as int));
+            assert(r1.h.w@[q1[a] as int] == jux_label(f, g, a));
+        } else {
+            assert(r.h.w@[q[k1 + (a - nf - ng)] as int] == jux_label(r1, h, k1 + (a - nf - ng)));
+        }
+        if a < nf {
+            assert(rp.h.w@[qp[a] as int] == jux_label(f, r2, a));
+        } else {
+            assert(q2[a - nf] < k2);
+            assert(rp.h.w@[qp[nf + q2[a - nf]] as int] == jux_label(f, r2, nf + q2[a - nf]));
+            assert(r2.h.w@[q2[a - nf] as int] == jux_label(g, h, a - nf));
+        }
+    }
+    assert forall|c: int| 0 <= c < k implies rp.h.w@[(#[trigger] phi[c]) as int] == r.h.w@[c] by {
+        assert(hit(ql, c, nn));
+        let a = choose|a: int| 0 <= a < nn && #[trigger] ql[a] == c;
+        assert(phi[ql[a] as int] == qr[a]);
+    }
+    assert(r.h.x@ =~= rp.h.x@);
+    assert(r.h.s.sources.table@ =~= rp.h.s.sources.table@ && r.h.t.sources.table@ =~= rp.h.t.sources.table@);
+    let lf = f.h.s.values.table@.len() as int; let lg = g.h.s.values.table@.len() as int; let lh = h.h.s.values.table@.len() as int;
+    assert forall|i: int| 0 <= i < r.h.s.values.table@.len() implies (#[trigger] rp.h.s.values.table@[i]) == phi[r.h.s.values.table@[i] as int] by {
+        if i < lf {
+            let v = f.h.s.values.table@[i] as int; assert(v < f.h.s.values.target);
+            assert(r1.h.s.values.table@[i] == q1[v]); assert(r.h.s.values.table@[i] == q[r1.h.s.values.table@[i] as int]);
+            assert(phi[ql[v] as int] == qr[v]);
+        } else if i < lf + lg {
+            let v = g.h.s.values.table@[i - lf] as int; assert(v < g.h.s.values.target);
+            assert(r1.h.s.values.table@[i] == q1[nf + v]); assert(r.h.s.values.table@[i] == q[r1.h.s.values.table@[i] as int]);
+            assert(r2.h.s.values.table@[i - lf] == q2[v]);
+            assert(phi[ql[nf + v] as int] == qr[nf + v]);
+        } else {
+            let v = h.h.s.values.table@[i - lf - lg] as int; assert(v < h.h.s.values.target);
+            assert(r.h.s.values.table@[i] == q[k1 + v]);
+            assert(r2.h.s.values.table@[i - lf] == q2[ng + v]);
+            assert(phi[ql[nf + ng + v] as int] == qr[nf + ng + v]);
+        }
+    }
+    let mf = f.h.t.values.table@.len() as int; let mg = g.h.t.values.table@.len() as int;
+    assert forall|i: int| 0 <= i < r.h.t.values.table@.len() implies (#[trigger] rp.h.t.values.table@[i]) == phi[r.h.t.values.table@[i] as int] by {
+        if i < mf {
+            let v = f.h.t.values.table@[i] as int; assert(v < f.h.t.values.target);
+            assert(r1.h.t.values.table@[i] == q1[v]); assert(r.h.t.values.table@[i] == q[r1.h.t.values.table@[i] as int]);
+            assert(phi[ql[v] as int] == qr[v]);
+        } else if i < mf + mg {
+            let v = g.h.t.values.table@[i - mf] as int; assert(v < g.h.t.values.target);
+            assert(r1.h.t.values.table@[i] == q1[nf + v]); assert(r.h.t.values.table@[i] == q[r1.h.t.values.table@[i] as int]);
+            assert(r2.h.t.values.table@[i - mf] == q2[v]);
+            assert(phi[ql[nf + v] as int] == qr[nf + v]);
+        } else {
+            let v = h.h.t.values.table@[i - mf - mg] as int; assert(v < h.h.t.values.target);
+            assert(r.h.t.values.table@[i] == q[k1 + v]);
+            assert(r2.h.t.values.table@[i - mf] == q2[ng + v]);
+            assert(phi[ql[nf + ng + v] as int] == qr[nf + ng + v]);
+        }
+    }
+    assert forall|i: int| 0 <= i < r.s.table@.len() implies (#[trigger] rp.s.table@[i]) == phi[r.s.table@[i] as int] by {
+        let v = f.s.table@[i] as int; assert(v < f.s.target);
+        assert(r1.s.table@[i] == q1[v]); assert(r.s.table@[i] == q[r1.s.table@[i] as int]);
+        assert(phi[ql[v] as int] == qr[v]);
+    }
+    assert forall|i: int| 0 <= i < r.t.table@.len() implies (#[trigger] rp.t.table@[i]) == phi[r.t.table@[i] as int] by {
+        let v = h.t.table@[i] as int; assert(v < h.t.target);
+        assert(r.t.table@[i] == q[k1 + v]);
+        assert(r2.t.table@[i] == q2[ng + v]);
+        assert(phi[ql[nf + ng + v] as int] == qr[nf + ng + v]);
+    }
+    phi
+}
+
+/// a map onto 0..k from 0..n needs k <= n
+pub proof fn lemma_surjection_small(q: Seq<usize>, k: int, n: int)
+    requires q.len() == n, forall|c: int| 0 <= c < k ==> #[trigger] hit(q, c, n), k > n, n >= 0, n <= usize::MAX
+    ensures false
+{
+    // choose a preimage for each of the classes 0..n: an injection of n + 1 values into 0..n
+    let pre = Seq::new((n + 1) as nat, |c: int| (choose|a: int| 0 <= a < n && #[trigger] q[a] == c) as usize);
+    assert forall|c: int| 0 <= c < n + 1 implies (#[trigger] pre[c]) < n && q[pre[c] as int] == c by { assert(hit(q, c, n)); }
+    assert(injective(pre)) by {
+        assert forall|c1: int, c2: int| 0 <= c1 < n + 1 && 0 <= c2 < n + 1 && c1 != c2 implies pre[c1] != pre[c2] by { assert(q[pre[c1] as int] == c1 && q[pre[c2] as int] == c2); }
+    }
+    lemma_injective_small(pre, n);
+}
+''')
